@@ -257,7 +257,7 @@ func IsBoolNode(n Node) bool {
 //@ props C02 C15
 //@ modifies *buf
 //@ ensures [C02] dot-in-chain: inKey ==> outFirst() == any(rune('.'))
-//@ atcall Fprintf assert [C02 C15] levels-printed-as-written: (arg_format == "**{%v}" && n.first == n.last && n.first != 4294967295 && len(arg_a) == 1 && arg_a[0] == any(n.first)) || (arg_format == "**{last to %v}" && n.first == 4294967295 && n.last != 4294967295 && len(arg_a) == 1 && arg_a[0] == any(n.last)) || (arg_format == "**{%v to last}" && n.last == 4294967295 && n.first != 4294967295 && n.first != 0 && len(arg_a) == 1 && arg_a[0] == any(n.first)) || (arg_format == "**{%v to %v}" && n.first != n.last && n.first != 4294967295 && n.last != 4294967295 && len(arg_a) == 2 && arg_a[0] == any(n.first) && arg_a[1] == any(n.last))
+//@ atcall Fprintf assert [C02 C15] levels-printed-as-written: ((arg_format == "**{%v}" || arg_format == "**{%d}") && n.first == n.last && n.first != 4294967295 && len(arg_a) == 1 && arg_a[0] == any(n.first)) || ((arg_format == "**{last to %v}" || arg_format == "**{last to %d}") && n.first == 4294967295 && n.last != 4294967295 && len(arg_a) == 1 && arg_a[0] == any(n.last)) || ((arg_format == "**{%v to last}" || arg_format == "**{%d to last}") && n.last == 4294967295 && n.first != 4294967295 && n.first != 0 && len(arg_a) == 1 && arg_a[0] == any(n.first)) || ((arg_format == "**{%v to %v}" || arg_format == "**{%d to %d}") && n.first != n.last && n.first != 4294967295 && n.last != 4294967295 && len(arg_a) == 2 && arg_a[0] == any(n.first) && arg_a[1] == any(n.last))
 //@ atcall writeTo assert [C02] chain: arg_recv == n.next ==> arg_inKey && arg_withParens
 
 //@ func (*MethodNode).writeTo
@@ -291,7 +291,7 @@ func IsBoolNode(n Node) bool {
 //@ modifies *buf
 //@ atcall writeTo assert [C02] operand-parens: arg_recv == n.operand ==> !arg_inKey && arg_withParens == (n.operand.priority() <= n.priority())
 //@ atcall writeTo assert [C02] chain: arg_recv == n.next && arg_recv != n.operand ==> arg_inKey && arg_withParens
-//@ atcall Fprintf assert [C02 C03] pattern-quoted-readably: arg_format == " like_regex %q%v" && len(arg_a) == 2 && arg_a[0] == any(n.pattern) && arg_a[1] == any(n.flags)
+//@ atcall Fprintf assert [C02 C03] pattern-quoted-readably: (arg_format == " like_regex %q%v" || arg_format == " like_regex %q%s") && len(arg_a) == 2 && arg_a[0] == any(n.pattern) && arg_a[1] == any(n.flags)
 //@ ensures [C02] open-when-asked: withParens ==> outFirst() == any(rune('('))
 //@ ensures [C02] own-parens-with-chain: n.next != nil ==> outFirst() == any(rune('('))
 
